@@ -170,6 +170,8 @@ def run(tier, seed):
     rep.assume("list[start::-1].index(None): first None from `start` downwards (modelled with exact clamping)")
     api.verify(S.map_fmmu, rep, replay=native, options={"cancellation": False})
     api.verify(S.map_fmmu_interleaved(), rep, replay=native_two_tasks, options={"cancellation": False})
+    for n in (2, 3):
+        api.verify(S.map_fmmu_fixed(n), rep, replay=native, options={"cancellation": False})
     api.REGISTRY[S.map_fmmu.qualname] = S.map_fmmu
     return rep.finish(
         explanation="pyvc: the real source of Terminal.map_fmmu (an @asynccontextmanager, split at its yield "
